@@ -217,6 +217,8 @@ class Executor(object):
         self.paths = []
         self.max_paths = 12000
         self.created_ids = set()      # ids of Python containers created BY the code under analysis (literals, copies)
+        self.unroll_depth = None      # triage mode: loops with plain invariants are unrolled this many times instead of cut
+        self.unroll_cut = 0           # paths dropped in triage mode because they need more iterations than that
         self._keepalive = []
         self.used_externals = set()
         self.used_callee_clauses = set()
@@ -650,8 +652,12 @@ class Executor(object):
                 spec = dict(spec, **(chosen or spec["variants"][0]))
             if spec.get("only_when"):
                 z, facts = self.spec_bool(st, pre, spec["only_when"], scope)
-                self.oblige(st, "exc:%s.only_when@%s" % (name, lab), z, props=spec.get("props", ()), kind="exc",
-                            extra_hyps=facts)
+                self.oblige(st, "exc:%s.only_when@%s" % (name, lab), z, props=spec.get("only_when_props", spec.get("props", ())),
+                            kind="exc", extra_hyps=facts)
+            for i, (cond, cprops) in enumerate(spec.get("only_when_also", [])):
+                # a weaker form of the condition, for the properties that do not depend on the stronger one
+                z, facts = self.spec_bool(st, pre, cond, scope)
+                self.oblige(st, "exc:%s.only_when_also%d@%s" % (name, i, lab), z, props=cprops, kind="exc", extra_hyps=facts)
             for i, sx in enumerate(spec.get("state", [])):
                 z, facts = self.spec_bool(st, pre, sx, scope)
                 self.oblige(st, "exc:%s.state%d@%s" % (name, i, lab), z, props=spec.get("props", ()), kind="exc",
@@ -1331,8 +1337,81 @@ class Executor(object):
     def coerce_spec(self, v, sort):
         return WRAP[sort](self.spec.to_sort(v, sort)) if sort in WRAP else v
 
+    @staticmethod
+    def plain_loop(lc):
+        """a loop whose contract is only an invariant (no ghost accumulators, no per-iteration event description): the function's
+        other clauses do not mention it, so it can also be executed by unrolling"""
+        return not (lc.get("ghost") or lc.get("body_events") or lc.get("local_trace"))
+
+    def while_unrolled(self, st, s, lc, depth):
+        if depth > self.unroll_depth:
+            self.unroll_cut += 1
+            return
+        if lc.get("clock"):
+            self.clock_advance(st, "unrolled%d" % depth)
+        for st1, c in self.ev_truth(st, s.test):
+            if isinstance(c, Raised):
+                yield st1, c
+                continue
+            for st2, taken in self.branch(st1, c, s):
+                if not taken:
+                    for r in self.exec_block(st2, s.orelse):
+                        yield r
+                    continue
+                for st3, out in self.exec_block(st2, s.body):
+                    if out is None or isinstance(out, Cont):
+                        for r in self.while_unrolled(st3, s, lc, depth + 1):
+                            yield r
+                    elif isinstance(out, Brk):
+                        yield st3, None
+                    else:
+                        yield st3, out
+
+    def vl_unrolled(self, st, node, vl, target, body, orelse, depth):
+        if depth > self.unroll_depth:
+            self.unroll_cut += 1
+            return
+        ex = st.fork().assume(vl.z == VL.nil).label("L%d:exit" % self.rel_line(node))
+        for r in self.exec_block(ex, orelse):
+            yield r
+        it = st.fork().assume(VL.is_cons(vl.z)).label("L%d:iter" % self.rel_line(node))
+        for st1, o in self.assign(it, target, SVal(VL.hd(vl.z))):
+            if o is not None:
+                yield st1, o
+                continue
+            for st2, out in self.exec_block(st1, body):
+                if out is None or isinstance(out, Cont):
+                    for r in self.vl_unrolled(st2, node, SVL(VL.tl(vl.z)), target, body, orelse, depth + 1):
+                        yield r
+                elif isinstance(out, Brk):
+                    yield st2, None
+                else:
+                    yield st2, out
+
+    def range_unrolled(self, st, node, lo, hi, iname, body, orelse, depth):
+        if depth > self.unroll_depth:
+            self.unroll_cut += 1
+            return
+        ex = st.fork().assume(lo >= hi).label("L%d:exit" % self.rel_line(node))
+        for r in self.exec_block(ex, orelse):
+            yield r
+        it = st.fork().assume(lo < hi).label("L%d:iter" % self.rel_line(node))
+        it.env[iname] = i2v(lo)
+        for st2, out in self.exec_block(it, body):
+            if out is None or isinstance(out, Cont):
+                for r in self.range_unrolled(st2, node, lo + 1, hi, iname, body, orelse, depth + 1):
+                    yield r
+            elif isinstance(out, Brk):
+                yield st2, None
+            else:
+                yield st2, out
+
     def st_While(self, st, s):
         k, lc = self.loop_contract(s)
+        if self.unroll_depth is not None and self.plain_loop(lc):
+            for r in self.while_unrolled(st, s, lc, 0):
+                yield r
+            return
         self.loop_ghost_init(st, lc)
         self.check_invariants(st, lc, k, "init")
         h = st.fork()
@@ -1439,6 +1518,10 @@ class Executor(object):
                     yield st2, out
 
     def for_vl(self, st, node, vl, target, body, orelse, k, lc, restname):
+        if self.unroll_depth is not None and self.plain_loop(lc):
+            for r in self.vl_unrolled(st, node, vl, target, body, orelse, 0):
+                yield r
+            return
         st.ghost[restname] = vl
         self.loop_ghost_init(st, lc)
         self.check_invariants(st, lc, k, "init")
@@ -1495,6 +1578,10 @@ class Executor(object):
         if not isinstance(target, ast.Name):
             raise Unsupported("for-range target")
         iname = target.id
+        if self.unroll_depth is not None and self.plain_loop(lc):
+            for r in self.range_unrolled(st, node, rng.lo, rng.hi, iname, body, orelse, 0):
+                yield r
+            return
         st.env[iname] = i2v(rng.lo)
         self.loop_ghost_init(st, lc)
         self.check_invariants(st, lc, k, "init")
